@@ -236,6 +236,7 @@ def corr_compile(ck, cs):
 
 
 _TRACE_LINE = []
+_FULL_STATES = []      # filled by traced_get_mapping: (stack top first, path, mapping items, reversed_mapping items) at every pop
 
 
 def traced_get_mapping(c, clo, ta, tb, scope):
@@ -253,11 +254,15 @@ def traced_get_mapping(c, clo, ta, tb, scope):
         _TRACE_LINE.append(hits[0])
     code = iso._get_mapping.__code__
     states = []
+    full = []
 
     def local(frame, event, arg):
         if event == 'line' and frame.f_lineno == _TRACE_LINE[0]:
             loc = frame.f_locals
             states.append((loc['n'], loc['depth'], tuple(loc['path'][:loc['depth']])))
+            # everything the loop carries, as it is (stale tail of path included): for the explicit-stack model Model.IsoStack
+            full.append(([(loc['n'], loc['depth'])] + list(reversed(loc['stack'])), list(loc['path']), list(loc['mapping'].items()),
+                         list(loc['reversed_mapping'].items())))
         return local
 
     def tracer(frame, event, arg):
@@ -268,7 +273,13 @@ def traced_get_mapping(c, clo, ta, tb, scope):
         out = list(iso._get_mapping(c, clo, ta, tb, scope))
     finally:
         sys.settrace(old)
+    _FULL_STATES[:] = full
     return out, states
+
+
+def full_states_term(full):
+    pr = lambda d: lst([tup(zraw(k), zraw(v)) for k, v in d])
+    return lst([tup(pr(stk), lst(path, zraw), pr(mp), pr(rm)) for stk, path, mp, rm in full])
 
 
 def trace_term(states):
@@ -290,6 +301,12 @@ def matcher_case(cs, ck, patt, targ, scope, tag):
         assert got2 == got
         cs.add(f'trace_eqb (zget_mapping_trace {lst([zentry(e) for e in c])} {zclo(clo)} {zpairs(ta)} {zadj(tb)} {lst(sorted(scope), zraw)}) {trace_term(states)}',
                ('_get_mapping trace', tag, patt, targ, sorted(scope)))
+        # the loop in its own form (Model.IsoStack: stack, path with its stale tail, mapping, reversed_mapping at every pop) and, with one unit
+        # of fuel per observed pop, its result against the recursive model (the theorem C07_stack_loop_refines says: for some fuel)
+        if len(states) <= 60 and (ck.tier == 'quick' or len(cs.exprs) % 8 < 2):      # thorough: every fourth case of the big exhaustive families
+            cs.add(f'sm_check {lst([zentry(e) for e in c])} {zclo(clo)} {zpairs(ta)} {zadj(tb)} {lst(sorted(scope), zraw)} {full_states_term(_FULL_STATES)}',
+                   ('_get_mapping loop states', tag, patt, targ, sorted(scope)))
+            ck.count('_get_mapping:loop-states:' + ('stale-path' if any(len(path) > stk[0][1] for stk, path, _, _ in _FULL_STATES) else 'no-stale-path'))
         ck.count(f'_get_mapping:trace:pops={min(len(states) // 5 * 5, 30)}+')
         ck.case(('gm', repr(patt), repr(targ), tuple(sorted(scope))), nontrivial=len(got) > 0)
         ck.count(f'_get_mapping:{tag}:mappings={min(len(got), 5)}' + ('+' if len(got) >= 5 else ''))
@@ -943,7 +960,7 @@ def correspondence(ck):
     corr_stereo(ck, cs)
     corr_match_stereo(ck, cs)
     corr_accelerated(ck, cs)
-    ok, failing, log = coqcases.run_cases('c07', 'Iso Graph IsoStereo', cs.exprs, shard=250, extra='From Proofs Require Import IsoProofs IsoExt IsoMatchStereo IsoCC.')
+    ok, failing, log = coqcases.run_cases('c07', 'Iso Graph IsoStereo IsoStack', cs.exprs, shard=250, extra='From Proofs Require Import IsoProofs IsoExt IsoMatchStereo IsoCC.')
     good = ok and not failing
     ck.oblige('correspondence: lazy_product, _compile_query, _get_mapping, Isomorphism._get_mapping (sequence of mappings, order included), '
               'operators, _get_automorphism_mapping == Coq model', good, 'correspondence', log or str([cs.meta[i] for i in failing[:5]]))
@@ -1860,7 +1877,7 @@ def directed(ck, failing):
             if kind == 'Isomorphism._get_mapping':
                 _, _, patt, targ, flt, scope = meta
                 int_around(patt, targ, scope)
-            elif kind == '_get_mapping':
+            elif kind in ('_get_mapping', '_get_mapping trace', '_get_mapping loop states'):
                 _, _, patt, targ, scope = meta
                 int_around(patt, targ, scope)
             elif kind == 'compile':
@@ -1990,6 +2007,8 @@ def search(ck):
 
 def run(ck):
     ck.trusted += ['translator tools/gen_isoops.py (Python ast: operators, call directions, filter arguments, scope tests, component split, loop exits of isomorphism.py)',
+                   'translator tools/gen_isomatch.py (Python ast, statement by statement: start / candidate test of _get_mapping, automorphism-filter block, neighbour loop of _compile_query)',
+                   'translator tools/gen_isolazy.py (Python ast: body of the inner loop of lazy_product statement by statement, skeleton compared as text)',
                    'correspondence runner harness/checks/C07.py + harness/coqcases.py + harness/coqmol.py', 'CachedMethods shim harness/boot.py',
                    'CPython 3.12.1', 'brute-force reference enumerator and own primitive evaluators in harness/checks/C07.py (search only)',
                    'RDKit 2026.3 SMARTS matcher (search only, common sub-language)',
@@ -1998,6 +2017,9 @@ def run(ck):
         'coq/model/Iso.v is a hand-written model of lazy_product, _compile_query, _get_mapping (recursive form of the explicit-stack loop), '
         'Isomorphism._get_mapping, is_substructure/is_equal/</<= and _get_automorphism_mapping; the tie is the correspondence of the whole '
         'SEQUENCE of mappings (order included) on exhaustive small graphs, generated pairs and corpus molecules',
+        'coq/model/IsoStack.v models the loop of _get_mapping in its own form (explicit stack, path, mapping, reversed_mapping, lazy clean-up) with the '
+        'tests translated by tools/gen_isomatch.py; C07_stack_loop_refines proves it equal to the recursive form; its states are compared with the '
+        'locals of the real loop (sys.settrace) at every pop',
         'atom / bond match are parameters of the theorems (C08 supplies them); other.connected_components (set order) is an input of the model',
         'a target whose _atoms/_bonds are inconsistent makes the Python matcher raise KeyError where the model rejects the candidate: a '
         'container cannot hold such dictionaries', 'the stereo filter of QueryIsomorphism.get_mapping and the Cython path are out of scope (C09)']
@@ -2007,7 +2029,7 @@ def run(ck):
                         'labelled pairs with scopes and both filter values; corpus molecules with patterns cut by mol.substructure, small patterns, '
                         'two-component patterns/targets; SMARTS through truth tables; automorphism mappings.  non-trivial = at least one mapping. '
                         'search: brute force over all injective maps, targets <= 8 atoms; non-trivial = at least one embedding exists')
-    proved = common.standard_proof_steps(ck, translators=['isoops', 'stereo'])   # control skeleton of isomorphism.py + C12's sign tables
+    proved = common.standard_proof_steps(ck, translators=['isoops', 'isomatch', 'isolazy', 'stereo'])   # control skeleton of isomorphism.py + C12's sign tables
     tied, failing = correspondence(ck)
     if not tied:
         directed(ck, failing)
